@@ -157,6 +157,55 @@ theorem processing_state_order (st : List (Str × Scalar)) (key : Str) (val v : 
   obtain ⟨b, hb⟩ := Option.isSome_iff_exists.mp h2
   simp [StateCond.eval, h, Op.eval?, ha, hb]
 
+/-- a pipeline state condition depends on the pipeline state only: as rule condition, as detection-item
+condition and as field-name condition (on a field name, on "no field name", on a detection item with
+or without a field name and field references) it has the value of one and the same test of the state -/
+theorem processing_state_same_at_all_levels (w : World) (c : StateCond) (it : DetItem) (n : Option Str) :
+    RuleCond.eval w (.state c) = c.eval w.state ∧
+    DetCond.eval m w it (.state c) = c.eval w.state ∧
+    FieldCond.onName m w n (.state c) = c.eval w.state ∧
+    FieldCond.onItem m w it (.state c) = c.eval w.state := by
+  cases h : c.eval w.state <;> simp [RuleCond.eval, DetCond.eval, FieldCond.onName, FieldCond.onItem, h]
+
+/-- a keyword item (no field name, no field references): `include_fields` never holds on it,
+`exclude_fields` always does, "applied to the field name" never does — whatever the lists and mode -/
+theorem keyword_item_field_conditions (w : World) (it : DetItem) (hf : it.field = none) (hr : it.refs = [])
+    (fs : List Str) (re : Bool) (id : Str) :
+    FieldCond.onItem m w it (.incl fs re) = false ∧
+    FieldCond.onItem m w it (.excl fs re) = true ∧
+    FieldCond.onName m w it.field (.itemApplied id) = false := by
+  simp [FieldCond.onItem, FieldCond.onName, included, hf, hr]
+
+/-- the value of a group depends on its conditions only through their truth values -/
+theorem group_holds_congr {α : Type} (g : Group α) (l₁ l₂ : α → Bool) (h : ∀ c ∈ g.conds, l₁ c = l₂ c) :
+    g.holds l₁ = g.holds l₂ := by
+  have hleaf : leafAt g l₁ = leafAt g l₂ := by
+    funext i
+    unfold leafAt
+    cases hi : g.conds[i]? with
+    | none => rfl
+    | some c => exact h c (List.mem_of_getElem? hi)
+  rw [holds_eq_gate, holds_eq_gate, hleaf]
+
+/-- an item whose field-name conditions are all pipeline state conditions treats every detection item
+alike — field-bound items and keyword items: its field-name group has the same value on all of them
+(with linking, negation flag or expression) -/
+theorem state_only_field_group_uniform (p : PItem) (w : World) (it it' : DetItem)
+    (h : ∀ c ∈ p.field.conds, ∃ s, c = .state s) :
+    p.fieldHoldsOnItem m w it = p.fieldHoldsOnItem m w it' := by
+  unfold PItem.fieldHoldsOnItem
+  apply group_holds_congr
+  intro c hc
+  obtain ⟨s, rfl⟩ := h c hc
+  rw [(processing_state_same_at_all_levels m w s it none).2.2.2, (processing_state_same_at_all_levels m w s it' none).2.2.2]
+
+/-- non-vacuity: after `set_state k=v`, a drop probe gated by the field-name condition `k == v` acts on a
+keyword item exactly as on a field-bound one; with the negation flag on neither -/
+example :
+    ((stateDropProbe false).probeActs noRe stateWorld kwItem, (stateDropProbe false).probeActs noRe stateWorld (docItem "sel" "fieldA" [sv "valueA"]),
+     (stateDropProbe true).probeActs noRe stateWorld kwItem, (stateDropProbe true).probeActs noRe stateWorld (docItem "sel" "fieldA" [sv "valueA"]))
+      = (true, true, false, false) := by decide
+
 /-- adding a constraint to a `logsource` condition can only shrink the set of log sources it matches:
 if `c'` specifies everything `c` specifies (with the same values), whatever `c'` matches `c` matches -/
 theorem logsource_condition_monotone (c c' r : LogSource) (href : c.admits c' = true) (h : c'.admits r = true) :
